@@ -214,6 +214,7 @@ type ChildResult struct {
 	ExitErr  error
 	TimedOut bool
 	Stderr   string // tail
+	LastLine string // last non-protocol line on stdout (children announce what they are about to do)
 }
 
 // RunChild runs `vcheck child <mode> <argfile>` and collects its protocol
@@ -274,6 +275,8 @@ func (c *Ctx) RunChild(mode string, args any, timeout time.Duration, extraEnv ..
 				res.Lines = append(res.Lines, rest[i+1:])
 			}
 			res.Finished[id] = true
+		default:
+			res.LastLine = l
 		}
 	}
 	if eb, err := os.ReadFile(errf.Name()); err == nil {
